@@ -2,6 +2,7 @@ import Gene.Generated.Consts
 import Gene.Generated.Schema
 import Gene.Generated.Grammar
 import Gene.Generated.Sites
+import Gene.Generated.Derive
 import Gene.Props.AuditExpected
 
 /-! # Translator obligations
@@ -34,5 +35,14 @@ theorem iter_sites : Gen.iterSites = Expected.iterSites := rfl
 theorem hash_decls : Gen.hashDecls = Expected.hashDecls := rfl
 /-- no shared mutable state (static mut, cells, locks, atomics) in the crate -/
 theorem no_shared_state : Gen.sharedState = [] := rfl
+
+/-- the attribute vocabulary of the derive macros is the one `Gene/Getter.lean` models: `getter(skip)`,
+    `getter(rename = ..)`, `serde(rename = ..)` under `getter(use_serde_rename)`; (`event(id, source)` belongs to
+    the `Event` derive, outside C08) -/
+theorem derive_vocabulary : Gen.deriveVocabulary =
+    ["contains_key:skip", "contains_key:use_serde_rename", "get_key_value:id", "get_key_value:rename",
+     "get_key_value:source", "is_ident:event", "is_ident:getter", "is_ident:serde"] := rfl
+/-- the derive crate has no panic-capable expression of its own -/
+theorem derive_no_panic_sites : Gen.derivePanicSites = [] := rfl
 
 end Gene.Audit
